@@ -116,19 +116,29 @@ Section Frame.
     end end end end end end
     end end.
 
-  (* a connection: receive messages one after the other, one caller buffer each, until the buffers run out
-     or the connection is dropped (header error / stall); a body-level error keeps reading, as net/rpc does *)
-  Fixpoint recv_seq (s : list byte) (bufs : list (N * bool)) : list rres :=
+  (* a connection: receive messages one after the other, one caller buffer each, until the buffers run out or the
+     connection is dropped (header error / stall).  A gob error on the body keeps reading, as net/rpc does.  After a
+     checksum mismatch or a payload left unread the codec remembers the error (bulkGobCodec.rErr, fix cbee0a8): the
+     next read of a header fails with it without consuming anything, and net/rpc drops the connection.
+     broken = rErr is set. *)
+  Definition is_reject (r : rres) : bool :=
+    match r with RErrCrc _ | RErrNotBulk _ => true | _ => false end.
+
+  Fixpoint recv_conn (broken : bool) (s : list byte) (bufs : list (N * bool)) : list rres :=
     match bufs with
     | [] => []
     | (cap, isb) :: bufs' =>
+        if broken then [RErrHdr s] else
         let r := recv s cap isb in
         r :: match r with
-             | ROk _ _ _ _ _ rest => recv_seq rest bufs'
-             | RErrBody rest | RErrCrc rest | RErrNotBulk rest => recv_seq rest bufs'
+             | ROk _ _ _ _ _ rest => recv_conn false rest bufs'
+             | RErrBody rest => recv_conn false rest bufs'
+             | RErrCrc rest | RErrNotBulk rest => recv_conn true rest bufs'
              | RErrHdr _ | RStall => []
              end
     end.
+
+  Definition recv_seq (s : list byte) (bufs : list (N * bool)) : list rres := recv_conn false s bufs.
 
   (* check_frame: re-derive the layout and both checksums of one captured frame, given the extent g of the
      gob part: (announced length, header checksum ok, payload checksum ok, no trailing bytes) *)
@@ -225,10 +235,11 @@ Definition ogdec (code n : N) (s : list byte) : gres blob :=
 
 Record st := { stream : list byte;                      (* bytes in flight, not yet consumed by the receiver *)
                expect : list (blob * blob * list byte); (* messages sent and not yet received *)
-               errd : bool;                             (* an earlier message on this connection was rejected (body-level error) *)
+               errd : bool;                             (* an earlier message on this connection met a body-level error *)
+               sticky : bool;                           (* the receiving codec has remembered a read error (rErr) *)
                verdict : Z }.
 
-Definition st0 : st := {| stream := []; expect := []; errd := false; verdict := 1%Z |}.
+Definition st0 : st := {| stream := []; expect := []; errd := false; sticky := false; verdict := 1%Z |}.
 
 Definition bad : list Z := [(-1)%Z].
 Definition b2z (b : bool) : Z := if b then 1%Z else 0%Z.
@@ -284,9 +295,10 @@ Definition recv_args (l : list Z) : option (N * bool * N * N * N * N * bool) :=
   | _ => None
   end.
 
-Definition do_recv (s : list byte) (a : N * bool * N * N * N * N * bool) : rres blob blob :=
+Definition do_recv (broken : bool) (s : list byte) (a : N * bool * N * N * N * N * bool) : rres blob blob :=
   let '(cap, isb, c1, n1, c2, n2, _) := a in
-  recv blob blob (ogdec c1 n1) (ogdec c2 n2) s cap isb.
+  if broken then RErrHdr s    (* Read{Request,Response}Header returns the remembered error, nothing is consumed *)
+  else recv blob blob (ogdec c1 n1) (ogdec c2 n2) s cap isb.
 
 Definition step (s : st) (op : list Z) : st * list Z :=
   match op with
@@ -295,24 +307,25 @@ Definition step (s : st) (op : list Z) : st * list Z :=
       match take_blob r1 with None => (s, bad) | Some (b, r2) =>
       match unrle r2 with None => (s, bad) | Some (p, _) =>
       let w := send blob blob (fun x => x) (fun x => x) h b p in
-      ({| stream := stream s ++ w; expect := expect s ++ [(h, b, p)]; errd := errd s; verdict := verdict s |}, rle w)
+      ({| stream := stream s ++ w; expect := expect s ++ [(h, b, p)]; errd := errd s; sticky := sticky s; verdict := verdict s |}, rle w)
       end end end
   | 2%Z :: r0 =>   (* Recv cap isbulk c1 n1 c2 n2 same *)
       match recv_args r0 with None => (s, bad) | Some a =>
-      let r := do_recv (stream s) a in
+      let r := do_recv (sticky s) (stream s) a in
       let '(_, _, _, _, _, _, same) := a in
       ({| stream := rest_of (stream s) r; expect := tl (expect s); errd := errd s || is_body_err r;
+          sticky := sticky s || is_reject blob blob r;
           verdict := worse (verdict s) (judge (expect s) (errd s) same r) |},
        obs_recv (stream s) (let '(cap, _, _, _, _, _, _) := a in cap) r)
       end
   | [3%Z; pos; pat] =>   (* Tamper: xor a bit pattern into the stream in flight *)
-      ({| stream := xor_at (stream s) (Z.to_N pos) (Z.to_N pat); expect := expect s; errd := errd s; verdict := verdict s |}, [0%Z])
+      ({| stream := xor_at (stream s) (Z.to_N pos) (Z.to_N pat); expect := expect s; errd := errd s; sticky := sticky s; verdict := verdict s |}, [0%Z])
   | 4%Z :: pos :: pat :: r0 =>   (* Probe: what a receive would do on the stream damaged by one burst; state unchanged *)
       match recv_args r0 with None => (s, bad) | Some a =>
       let s' := xor_at (stream s) (Z.to_N pos) (Z.to_N pat) in
-      let r := do_recv s' a in
+      let r := do_recv (sticky s) s' a in
       let '(_, _, _, _, _, _, same) := a in
-      ({| stream := stream s; expect := expect s; errd := errd s;
+      ({| stream := stream s; expect := expect s; errd := errd s; sticky := sticky s;
           verdict := worse (verdict s) (judge (expect s) (errd s) same r) |},
        obs_recv s' (let '(cap, _, _, _, _, _, _) := a in cap) r)
       end
@@ -320,7 +333,7 @@ Definition step (s : st) (op : list Z) : st * list Z :=
       (s, [n; Z.of_N (pool_cap (Z.to_N n))])
   | [6%Z; k] =>   (* Cut: the connection breaks after k more bytes *)
       ({| stream := match takeN (Z.to_N k) (stream s) with Some (a, _) => a | None => stream s end;
-          expect := expect s; errd := errd s; verdict := verdict s |}, [0%Z])
+          expect := expect s; errd := errd s; sticky := sticky s; verdict := verdict s |}, [0%Z])
   | [9%Z] =>      (* property verdict of the case so far *)
       (s, [777%Z; verdict s])
   | _ => (s, bad)
